@@ -8,14 +8,26 @@ from fractions import Fraction
 from ..core import frac
 
 LEVEL = "proof"
-RULE = ("bin tables of 1..5 chromosomes with 0..12 genes of 1..10 bins, other bins (Antitarget/Background/-/./CGH) "
-        "before, between, inside and after genes incl. single trailing bins, default / offset / filtered (gapped) "
-        "index labels; ops by_gene (default and custom ignore lists), do_genemetrics (+- segments cutting genes, "
-        "thresholds incl. exact dyadic ties, min_probes 0..5, skip_low with -20/-15/depth 0 bins, haploid-X x "
-        "female/male/guessed), squash_genes (mean/median/default summary, squash_antitarget), do_breaks; plus a "
+RULE = ("bin tables of 1..5 chromosomes with 0..12 genes of 1..10 bins (names G1.., in 30% of the tables also realistic "
+        "names and names that merely contain an ignored name: GCGH, G-, G.1, GAntitarget), other bins "
+        "(Antitarget/Background/-/./CGH) before, between, inside and after genes incl. single trailing bins, "
+        "default / offset / filtered (gapped) index labels.  About half of the well-formed tables are not the plain "
+        "chromosome,start,end,gene,log2,depth,weight table: weight and/or depth column missing (direct calls of "
+        "by_gene / genemetrics / breaks; the model then counts weight 1 / depth 1 per bin and the result must not "
+        "report the missing column), further columns gc / rmask / spread (squash_genes: also probes), columns in "
+        "file-reader order or (not squash_genes) any order.  ops by_gene (default and custom ignore as list or tuple), "
+        "do_genemetrics (no segments, an EMPTY segment table, segments cutting genes; 60% of the segment tables with "
+        "further columns depth/cn/baf(NaN)/cn1/cn2/ci_lo/ci_hi/stdev/p_ttest, which every reported row must carry from a "
+        "segment it lies in, and/or filtered row labels; thresholds incl. exact dyadic ties, min_probes 0..5, skip_low "
+        "with -20/-15/depth 0 bins, haploid-X x female/male/guessed, diploid_parx_genome grch37/grch38 in 15%), "
+        "squash_genes (mean/median/default summary, squash_antitarget; further columns of a squashed row = summary of "
+        "its bins, probes = their sum), do_breaks (same segment layouts).  Direct calls hand the arguments over "
+        "positionally, by keyword, or by keyword with every argument that equals its default left out.  Corpus: "
+        "finding L witnesses, empty bin tables, empty / single-row segment tables for genemetrics and breaks; plus a "
         "malformed stream (interleaved genes, comma-joined names, zero weights). About 35% of the well-formed "
         "genemetrics / breaks cases (15-20% of all cases) run through the command line: the 6-digit bin table is "
-        "written as .cnr (+ .cns), `cnvkit.py genemetrics|gainloss [-s] [-t] [-m] [--drop-low-coverage] [-y] [-x SEX] "
+        "written as .cnr (+ .cns, incl. the further columns and column order) and "
+        "`cnvkit.py genemetrics|gainloss [-s] [-t] [-m] [--drop-low-coverage] [-y] [-x SEX] [--diploid-parx-genome G] "
         "[statistics options] -o` or `cnvkit.py breaks [-m] -o` is run in-process (short and long option "
         "spellings, all sex synonyms, -t/-m left implicit when they equal the parser defaults 0.2 / 3 / 1), the "
         "model gets the tables as re-read from the files, the result is the table handed to write_dataframe and the "
@@ -26,11 +38,21 @@ ASSUMPTIONS = ["bins sorted, non-overlapping, positive length inside each chromo
                "index labels unique and increasing (what reading a file and boolean filtering produce)",
                "the sex used by shift_xx is given, or taken from the real guess_xx and handed to the model (C15)",
                "bins of a segment = outer selection (C07.outer_exact) on sorted disjoint bins",
-               "spec clauses are evaluated only when every named gene's bins are consecutive (the property's hypothesis)"]
+               "spec clauses are evaluated only when every named gene's bins are consecutive (the property's hypothesis)",
+               "a bin table without weight column is modelled as weight 1 per bin (summed weight = bin count, plain means), "
+               "one without depth column as depth 1; the harness checks that the result does not report the missing column",
+               "squash_genes: optional columns in file-reader order (it fills rows by position; "
+               "proposed_fixes/C16-squash-column-order.md); further columns are checked in Python, not by the model"]
 TRUSTED_EXTRA = ["pandas groupby(sort=False), DataFrame.iloc/loc slicing, np.average, Series.mean/median",
                  "biweight_location (default squash summary, C19): only coordinates / row count compared"]
 PREFIX = bool(os.environ.get("C16_PREFIX_MODEL"))  # development: compare with the model of the code before fix L
 OTHER = ["Antitarget", "Antitarget", "-", ".", "CGH", "Background"]
+ODD_GENES = ["GNAS", "G6PD", "GATA3-AS1", "G.1", "GCGH", "GAntitarget", "G-", "GBackground", "Gcgh", "G_Antitarget"]
+# optional columns a bin table may carry besides depth / weight (reference .cnn: gc, rmask, spread)
+BIN_EXTRA = ["gc", "rmask", "spread"]
+# optional columns of a segment table: `call` (cn, baf, cn1, cn2), `segmetrics` (ci_lo .. p_ttest), `segment` (depth)
+SEG_EXTRA = ["depth", "cn", "baf", "cn1", "cn2", "ci_lo", "ci_hi", "stdev", "p_ttest"]
+PARX = ["grch37", "grch38"]
 
 
 # ---------------------------------------------------------------------------------------------
@@ -120,6 +142,10 @@ def _table(rng, malformed=False, small=False):
     chroms = _chrom_names(rng, nchrom)
     ngenes = rng.randint(0, 3 if small else 12)
     gnames = [f"G{i + 1}" for i in range(ngenes)]
+    if ngenes and rng.random() < 0.3:
+        # realistic names, and names that merely CONTAIN an ignored name (a gene is ignored only on equality)
+        for k, nm in zip(rng.sample(range(ngenes), min(ngenes, rng.randint(1, 4))), rng.sample(ODD_GENES, 4)):
+            gnames[k] = nm
     rng.shuffle(gnames)
     # distribute genes over chromosomes
     per = {c: [] for c in chroms}
@@ -206,7 +232,68 @@ def _segments(rng, rows, thr):
     return segs
 
 
+def _bin_cols(rng, op):
+    """how the bin table is laid out: optional columns dropped / added, column order.  None = the plain
+    chromosome,start,end,gene,log2,depth,weight table.  (_to_cli puts depth / weight back: the commands read fix output)"""
+    if rng.random() < 0.45:
+        return None
+    spec = {"drop": [], "extra": [], "perm": None}
+    if op == "squash_genes":
+        # squash_genes builds its rows BY POSITION (depth, gc, rmask, spread, weight, then probes): only the column
+        # order a file reader produces (required columns, the others sorted by name) is generated, and a table with
+        # a `probes` column has nothing sorting after it (see proposed_fixes/C16-squash-column-order.md)
+        spec["perm"] = "sorted"
+        if rng.random() < 0.3:
+            spec["drop"], spec["extra"] = ["weight"], rng.choice([["probes"], ["gc", "probes"]])
+        else:
+            spec["extra"] = rng.sample(BIN_EXTRA, rng.randint(1, 3))
+        return spec
+    if rng.random() < 0.45:
+        # a coverage / reference table (.cnn) has no weights; a bare table may have no depth either
+        spec["drop"] = rng.choice([["weight"], ["weight"], ["depth"], ["weight", "depth"]])
+    if rng.random() < 0.6:
+        spec["extra"] = rng.sample(BIN_EXTRA, rng.randint(1, 3))
+    if rng.random() < 0.6:
+        # any column order (these functions address columns by name), or the one a file reader produces
+        spec["perm"] = rng.choice(["sorted", rng.randint(0, 10 ** 6), rng.randint(0, 10 ** 6)])
+    if not (spec["drop"] or spec["extra"] or spec["perm"] is not None):
+        return None
+    return spec
+
+
+def _seg_repr(rng, segs):
+    """how the segment table is laid out: further columns as `segment` / `call` / `segmetrics` write them, and
+    row labels of a filtered array (_to_cli drops the labels: a file has none)"""
+    if not segs or rng.random() < 0.4:
+        return None
+    spec = {"cols": [], "vals": [], "index": None}
+    if rng.random() < 0.8:
+        spec["cols"] = [c for c in SEG_EXTRA if rng.random() < 0.35] or ["cn"]
+        for _ in segs:
+            row = []
+            for c in spec["cols"]:
+                if c in ("cn", "cn1", "cn2"):
+                    row.append(rng.randint(0, 6))
+                elif c == "baf" and rng.random() < 0.3:
+                    row.append(None)  # NaN: no heterozygous SNP in the segment
+                elif c == "depth":
+                    row.append(round(rng.uniform(0, 300), 3))
+                else:
+                    row.append(round(rng.uniform(-2, 2), 4))
+            spec["vals"].append(row)
+    if rng.random() < 0.5:
+        cur, lab = rng.randint(0, 50), []
+        for _ in segs:
+            lab.append(cur)
+            cur += rng.choice([1, 1, 2, 5, rng.randint(1, 30)])
+        spec["index"] = lab
+    if not spec["cols"] and spec["index"] is None:
+        return None
+    return spec
+
+
 THRS = [0.2, 0.2, 0.2, 0.0, 0.5, 0.25, 1.0, 0.125]
+CALLS = ["pos", "pos", "kw", "kw-omit", "kw-omit"]  # how the arguments are handed over (kw-omit: defaults left implicit)
 CLI_SHARE = 0.35  # of the well-formed genemetrics / breaks cases
 SEX_WORDS = {True: ["f", "x", "female", "Female"], False: ["m", "y", "male", "Male"]}
 STAT_OPTS = ["--mean", "--median", "--mode", "--ttest", "--stdev", "--sem", "--mad", "--mse", "--iqr", "--bivar",
@@ -229,6 +316,15 @@ def _to_cli(rng, op, inp):
         s[4] = _r6(s[4])
         if s[6] is not None:
             s[6] = _r6(s[6])
+    inp.pop("call", None)
+    if inp.get("segs") == []:
+        inp["segs"] = None  # no file to hand over
+    if inp.get("cols") and inp["cols"].get("drop"):
+        inp["cols"] = None  # the command-line cases read fix output: depth and weight present
+    if inp.get("seg_repr"):
+        inp["seg_repr"]["index"] = None
+        if not inp["seg_repr"]["cols"]:
+            inp["seg_repr"] = None
     opts = {"long": rng.random() < 0.5, "omit_defaults": rng.random() < 0.7}
     if op == "genemetrics":
         if rng.random() < 0.25:
@@ -248,8 +344,16 @@ def _case(rng, op, malformed=False, small=False):
     rows = _table(rng, malformed, small)
     inp = {"rows": rows}
     tag = op + ("-malformed" if malformed else "")
+    if not malformed:
+        inp["cols"] = _bin_cols(rng, op)
+        for r in rows:  # the model's table: a missing weight column counts as weight 1, a missing depth as depth 1
+            if inp["cols"] and "weight" in inp["cols"]["drop"]:
+                r[7] = frac(1.0)
+            if inp["cols"] and "depth" in inp["cols"]["drop"]:
+                r[6] = frac(1.0)
     if op == "by_gene":
         k = rng.random()
+        inp["ignore_tuple"] = rng.random() < 0.4
         if k < 0.7:
             inp["ignore"] = None
         else:
@@ -262,6 +366,8 @@ def _case(rng, op, malformed=False, small=False):
         segs = _segments(rng, rows, thr) if rng.random() < 0.55 else None
         if segs is not None and not segs:
             segs = None
+        if segs is None and not malformed and rng.random() < 0.08:
+            segs = []  # an EMPTY segment table is handed over: falsy, the genes are reported from the bins
         if thr in (0.0, 0.5, 0.25, 1.0, 0.125) and rng.random() < 0.6:
             # exact ties: every bin of some genes sits at +-thr with dyadic weights, so the weighted mean is
             # exactly the threshold in float arithmetic as well
@@ -270,20 +376,34 @@ def _case(rng, op, malformed=False, small=False):
                 sgn = rng.choice([1, -1])
                 for r in rows:
                     if r[4] == g:
-                        r[5], r[6], r[7] = frac(sgn * thr), frac(float(rng.randint(1, 40))), frac(rng.choice([0.25, 0.5, 1.0]))
+                        r[5] = frac(sgn * thr)
+                        if not (inp.get("cols") and inp["cols"]["drop"]):
+                            r[6], r[7] = frac(float(rng.randint(1, 40))), frac(rng.choice([0.25, 0.5, 1.0]))
         inp.update(segs=segs, thr=frac(thr), thr_f=thr, min_probes=rng.choice([0, 1, 2, 3, 3, 5]),
                    skip_low=rng.random() < 0.5, hapx=rng.random() < 0.5, female=rng.choice([True, False, None]))
-        tag += "-segments" if segs else "-genes"
+        if not malformed:
+            inp.update(call=rng.choice(CALLS), parx=rng.choice(PARX) if rng.random() < 0.15 else None,
+                       seg_repr=_seg_repr(rng, segs))
+        tag += "-segments" if segs else ("-emptysegs" if segs is not None else "-genes")
     elif op == "squash_genes":
         inp.update(summary=rng.choice(["mean", "median", "default"]), squash_antitarget=rng.random() < 0.4,
                    ignore=None if rng.random() < 0.8 else ["-"])
+        if not malformed:
+            inp["call"] = rng.choice(CALLS)
         tag += "-" + inp["summary"]
     elif op == "breaks":
         inp.update(segs=_segments(rng, rows, 0.2), min_probes=rng.choice([1, 1, 2, 3, 4]))
+        if not malformed:
+            inp.update(call=rng.choice(CALLS), seg_repr=_seg_repr(rng, inp["segs"]))
     if (op in ("genemetrics", "breaks") and not malformed and not PREFIX and rng.random() < CLI_SHARE
             and (op == "genemetrics" or inp["segs"])):
         _to_cli(rng, op, inp)
         tag = "cli-" + tag
+    c = inp.get("cols")
+    if c:
+        tag += "-cols"
+    if inp.get("seg_repr"):
+        tag += "-segrepr"
     if PREFIX:
         inp["prefix"] = True
     return {"op": op, "tag": tag, "in": inp}
@@ -327,6 +447,16 @@ def corpus():
     cs.append({"op": "by_gene", "tag": "corpus-empty", "in": {"rows": [], "ignore": None}})
     cs.append({"op": "squash_genes", "tag": "corpus-empty",
                "in": {"rows": [], "summary": "mean", "squash_antitarget": False, "ignore": None}})
+    # empty tables and empty / single segment tables (an empty segment table is falsy: genes come from the bins)
+    gmk = {"thr": frac(0.2), "thr_f": 0.2, "min_probes": 3, "skip_low": False, "hapx": False}
+    cs.append({"op": "genemetrics", "tag": "corpus-empty", "in": dict(gmk, rows=[], segs=None, female=True)})
+    cs.append({"op": "genemetrics", "tag": "corpus-empty-guess", "in": dict(gmk, rows=[], segs=None, female=None, call="kw-omit")})
+    cs.append({"op": "genemetrics", "tag": "corpus-empty-segments", "in": dict(gmk, rows=gm, segs=[], female=True)})
+    one = [["chr1", 0, 60, "-", frac(0.5), 6, None]]
+    cs.append({"op": "genemetrics", "tag": "corpus-empty-bins-segments", "in": dict(gmk, rows=[], segs=one, female=True)})
+    cs.append({"op": "breaks", "tag": "corpus-empty", "in": {"rows": [], "segs": one + [["chr1", 60, 90, "-", frac(1.5), 3, None]], "min_probes": 1}})
+    cs.append({"op": "breaks", "tag": "corpus-empty-segments", "in": {"rows": gm, "segs": [], "min_probes": 1}})
+    cs.append({"op": "breaks", "tag": "corpus-one-segment", "in": {"rows": gm, "segs": one, "min_probes": 1, "call": "kw-omit"}})
     if PREFIX:
         for c in cs:
             c["in"]["prefix"] = True
@@ -350,19 +480,44 @@ def gen_cases(rng, tier):
 # the real code
 
 
-def _cna(rows):
+def _xval(name, label):
+    """the value of an optional column (gc, rmask, spread, probes) in the bin with this row label"""
+    if name == "probes":
+        return int(label * 7 % 5) + 1
+    return round(((label * 37 + sum(map(ord, name))) % 101) / 101.0, 4)
+
+
+def _cna(rows, cols=None):
+    """the bin table as a CopyNumArray; `cols` = optional columns dropped / added and the column order"""
+    import random
+
     from cnvlib.cnary import CopyNumArray as CNA
 
-    data = [(r[1], r[2], r[3], r[4], float(Fraction(r[5])), float(Fraction(r[6])), float(Fraction(r[7]))) for r in rows]
-    arr = CNA.from_rows(data, columns=["chromosome", "start", "end", "gene", "log2", "depth", "weight"],
-                        meta_dict={"sample_id": "S"})
+    cols = cols or {}
+    names = ["chromosome", "start", "end", "gene", "log2", "depth", "weight"]
+    keep = [n for n in names if n not in (cols.get("drop") or [])] + list(cols.get("extra") or [])
+    data = []
+    for r in rows:
+        full = dict(zip(names, (r[1], r[2], r[3], r[4], float(Fraction(r[5])), float(Fraction(r[6])), float(Fraction(r[7])))))
+        for x in cols.get("extra") or []:
+            full[x] = _xval(x, r[0])
+        data.append(tuple(full[n] for n in keep))
+    arr = CNA.from_rows(data, columns=keep, meta_dict={"sample_id": "S"})
+    if cols.get("perm") is not None:
+        order = list(keep)
+        if cols["perm"] == "sorted":
+            order = order[:5] + sorted(order[5:])
+        else:
+            random.Random(cols["perm"]).shuffle(order)
+        arr = CNA(arr.data[order], {"sample_id": "S"})
     arr.data.index = [r[0] for r in rows]
     return arr
 
 
-def _segarr(segs):
+def _segarr(segs, repr_=None):
     from cnvlib.cnary import CopyNumArray as CNA
 
+    repr_ = repr_ or {}
     cols = ["chromosome", "start", "end", "gene", "log2"]
     has_p = bool(segs) and segs[0][5] is not None
     has_w = bool(segs) and segs[0][6] is not None
@@ -378,7 +533,16 @@ def _segarr(segs):
         if has_w:
             row.append(float(Fraction(s[6])))
         data.append(tuple(row))
-    return CNA.from_rows(data, columns=cols, meta_dict={"sample_id": "S"})
+    arr = CNA.from_rows(data, columns=cols, meta_dict={"sample_id": "S"})
+    for j, c in enumerate(repr_.get("cols") or []):
+        vals = [float("nan") if v[j] is None else v[j] for v in repr_["vals"]]
+        if c == "depth":
+            arr.data.insert(5, c, vals)  # where `segment` puts it
+        else:
+            arr.data[c] = vals
+    if repr_.get("index"):
+        arr.data.index = list(repr_["index"])
+    return arr
 
 
 def _opt(v):
@@ -388,15 +552,81 @@ def _opt(v):
     return None if math.isnan(v) else frac(v)
 
 
-def _gm_rows(tab):
+def _gm_rows(tab, cols=None):
     rows = []
+    drop = (cols or {}).get("drop") or []
+    if len(tab) and any(d in tab.columns for d in drop):
+        raise AssertionError(f"the table reports a column the bins do not have: {drop}")
     for k in range(len(tab)):
         r = tab.iloc[k]
+        # a table without weights: every bin counts once (summed weight = bin count); without depth: depth 1
         rows.append([str(r["gene"]), str(r["chromosome"]), int(r["start"]), int(r["end"]), _opt(r["log2"]),
-                     frac(float(r["depth"])), frac(float(r["weight"])), int(r["probes"]),
+                     frac(1.0) if "depth" in drop else frac(float(r["depth"])),
+                     frac(float(r["probes"])) if "weight" in drop else frac(float(r["weight"])), int(r["probes"]),
                      _opt(r["segment_weight"]) if "segment_weight" in tab.columns else None,
                      int(r["segment_probes"]) if "segment_probes" in tab.columns else None])
     return rows
+
+
+def _same_num(a, b):
+    if a is None or (isinstance(a, float) and math.isnan(a)):
+        return b is None or (isinstance(b, float) and math.isnan(b))
+    if b is None or (isinstance(b, float) and math.isnan(b)):
+        return False
+    return abs(float(a) - float(b)) <= 1e-5 * max(1.0, abs(float(b)))
+
+
+def _check_seg_extras(tab, segdata, bin_columns):
+    """given segments with further columns (cn, baf, ci_lo ...), every reported part of a gene carries the values
+    of a segment it lies in.  `segdata` = the segment table handed to the code (a copy taken before the call)"""
+    extra = [c for c in segdata.columns if c not in bin_columns and c not in ("depth", "probes", "weight")]
+    if not extra or not len(tab):
+        return
+    for c in extra:
+        if c not in tab.columns:
+            raise AssertionError(f"the segments' column {c} is not reported")
+    for k in range(len(tab)):
+        r = tab.iloc[k]
+        ok = False
+        for j in range(len(segdata)):
+            if (str(segdata["chromosome"].iat[j]) != str(r["chromosome"])
+                    or not (int(segdata["start"].iat[j]) < int(r["end"]) and int(segdata["end"].iat[j]) > int(r["start"]))):
+                continue
+            if "segment_probes" in tab.columns and int(segdata["probes"].iat[j]) != int(r["segment_probes"]):
+                continue
+            if all(_same_num(r[c], segdata[c].iat[j]) for c in extra):
+                ok = True
+                break
+        if not ok:
+            raise AssertionError(f"row {k} ({r['gene']}) does not carry the further columns of a segment it lies in")
+
+
+def _check_squash_extras(out, rows, cols, summary):
+    """squash_genes on a table with further columns: a squashed row summarises them like log2 (probes: summed),
+    a single bin keeps its own"""
+    import numpy as np
+
+    extra = list((cols or {}).get("extra") or [])
+    if not extra:
+        return
+    d = out.data
+    if [str(c) for c in d.columns] != [str(c) for c in _cna(rows[:1], cols).data.columns]:
+        raise AssertionError(f"squash_genes changed the columns: {list(d.columns)}")
+    for k in range(len(d)):
+        c, s, e = str(d["chromosome"].iat[k]), int(d["start"].iat[k]), int(d["end"].iat[k])
+        grp = [r for r in rows if r[1] == c and r[2] >= s and r[3] <= e]
+        if not grp or (len(grp) > 1 and summary == "default"):
+            continue
+        for x in extra:
+            vals = [_xval(x, r[0]) for r in grp]
+            if len(grp) == 1:
+                want = vals[0]
+            elif x == "probes":
+                want = sum(vals)
+            else:
+                want = float(np.mean(vals) if summary == "mean" else np.median(vals))
+            if not _same_num(float(d[x].iat[k]), want):
+                raise AssertionError(f"squashed row {k} ({c}:{s}-{e}) column {x}: {d[x].iat[k]!r}, its bins give {want!r}")
 
 
 def _break_rows(tab):
@@ -473,13 +703,13 @@ def _run_cli(case):
         fr, fs, fo = (os.path.join(d, n) for n in ("S.cnr", "S.cns", "S.out.tsv"))
         logging.disable(logging.CRITICAL)
         try:
-            tabio.write(_cna(i["rows"]), fr)
+            tabio.write(_cna(i["rows"], i.get("cols")), fr)
             if i.get("segs"):
-                tabio.write(_segarr(i["segs"]), fs)
+                tabio.write(_segarr(i["segs"], i.get("seg_repr")), fs)
         finally:
             logging.disable(quiet)
         arr, rows = _reread(fr, i["rows"], "bins")
-        segs = _reread(fs, i["segs"], "segments")[1] if i.get("segs") else None
+        segarr, segs = _reread(fs, i["segs"], "segments") if i.get("segs") else (None, None)
         if op == "genemetrics":
             argv = [o.get("cmd") or "genemetrics", fr]
             if segs is not None:
@@ -494,6 +724,8 @@ def _run_cli(case):
                 argv += [o.get("hapx_opt") or "-y"]
             if i["female"] is not None:
                 argv += ["--sample-sex" if lng else "-x", o.get("sex") or ("female" if i["female"] else "male")]
+            if i.get("parx"):
+                argv += ["--diploid-parx-genome", i["parx"]]
             argv += list(o.get("stats") or [])
         else:
             argv = ["breaks", fr, fs]
@@ -521,10 +753,12 @@ def _run_cli(case):
         reread = {"rows": rows, "segs": segs}
         if op == "genemetrics":
             if i["female"] is None:
-                g = arr.guess_xx(is_haploid_x_reference=i["hapx"])
+                g = arr.guess_xx(is_haploid_x_reference=i["hapx"], diploid_parx_genome=i.get("parx"))
                 used = None if g is None else bool(g)
             else:
                 used = i["female"]
+            if segarr is not None:
+                _check_seg_extras(tab, segarr.data, list(arr.data.columns))
             return {"rows": _gm_rows(tab), "female": used, "reread": reread}
         return {"breaks": _break_rows(tab), "reread": reread}
     finally:
@@ -537,24 +771,38 @@ def run_impl(case):
     i = case["in"]
     if i.get("cli"):
         return _run_cli(case)
-    arr = _cna(i["rows"])
+    arr = _cna(i["rows"], i.get("cols"))
     op = case["op"]
+    call = i.get("call") or "pos"
     if op == "by_gene":
         if i.get("ignore") is None:
             it = arr.by_gene()
         else:
-            it = arr.by_gene(list(i["ignore"]))
+            it = arr.by_gene(tuple(i["ignore"]) if i.get("ignore_tuple") else list(i["ignore"]))
         return [[str(g), [int(x) for x in sub.data.index]] for g, sub in it]
     if op == "genemetrics":
-        segs = _segarr(i["segs"]) if i.get("segs") else None
+        segs = _segarr(i["segs"], i.get("seg_repr")) if i.get("segs") is not None else None
+        segdata = segs.data.copy() if segs is not None else None
         female = i["female"]
         if female is None:
-            g = arr.guess_xx(is_haploid_x_reference=i["hapx"])
+            g = arr.guess_xx(is_haploid_x_reference=i["hapx"], diploid_parx_genome=i.get("parx"))
             used = None if g is None else bool(g)
         else:
             used = female
-        tab = reports.do_genemetrics(arr, segs, i["thr_f"], i["min_probes"], i["skip_low"], i["hapx"], female)
-        return {"rows": _gm_rows(tab), "female": used}
+        if call == "pos":
+            args = [arr, segs, i["thr_f"], i["min_probes"], i["skip_low"], i["hapx"], female]
+            tab = reports.do_genemetrics(*(args + ([i["parx"]] if i.get("parx") else [])))
+        else:
+            kw = dict(segments=segs, threshold=i["thr_f"], min_probes=i["min_probes"], skip_low=i["skip_low"],
+                      is_haploid_x_reference=i["hapx"], is_sample_female=female, diploid_parx_genome=i.get("parx"))
+            if call == "kw-omit":
+                dflt = dict(segments=None, threshold=0.2, min_probes=3, skip_low=False, is_haploid_x_reference=False,
+                            is_sample_female=None, diploid_parx_genome=None)
+                kw = {k: v for k, v in kw.items() if not (v is dflt[k] or (k in ("threshold", "min_probes") and v == dflt[k]))}
+            tab = reports.do_genemetrics(arr, **kw)
+        if segdata is not None and len(segdata):
+            _check_seg_extras(tab, segdata, list(arr.data.columns))
+        return {"rows": _gm_rows(tab, i.get("cols")), "female": used}
     if op == "squash_genes":
         import numpy as np
 
@@ -565,12 +813,25 @@ def run_impl(case):
             kw["summary_func"] = np.median
         if i.get("ignore") is not None:
             kw["ignore"] = list(i["ignore"])
-        out = arr.squash_genes(squash_antitarget=i["squash_antitarget"], **kw)
+        if call != "kw-omit" or i["squash_antitarget"]:
+            kw["squash_antitarget"] = i["squash_antitarget"]
+        if call == "pos" and i["summary"] != "default" and i.get("ignore") is not None:
+            out = arr.squash_genes(kw["summary_func"], i["squash_antitarget"], tuple(i["ignore"]))
+        else:
+            out = arr.squash_genes(**kw)
         d = out.data
+        if "malformed" not in case.get("tag", ""):
+            _check_squash_extras(out, i["rows"], i.get("cols"), i["summary"])
         return [[str(d["chromosome"].iat[k]), int(d["start"].iat[k]), int(d["end"].iat[k]), str(d["gene"].iat[k]),
-                 _opt(d["log2"].iat[k]), _opt(d["depth"].iat[k]), _opt(d["weight"].iat[k])] for k in range(len(d))]
+                 _opt(d["log2"].iat[k]), _opt(d["depth"].iat[k]),
+                 _opt(d["weight"].iat[k]) if "weight" in d.columns else None] for k in range(len(d))]
     if op == "breaks":
-        return _break_rows(reports.do_breaks(arr, _segarr(i["segs"]), i["min_probes"]))
+        segs = _segarr(i["segs"], i.get("seg_repr"))
+        if call == "kw-omit" and i["min_probes"] == 1:
+            return _break_rows(reports.do_breaks(arr, segs))
+        if call == "pos":
+            return _break_rows(reports.do_breaks(arr, segs, i["min_probes"]))
+        return _break_rows(reports.do_breaks(probes=arr, segments=segs, min_probes=i["min_probes"]))
     raise ValueError(op)
 
 
@@ -583,7 +844,8 @@ def _is_err(impl):
 
 
 def to_line(case, impl):
-    inp = {k: v for k, v in case["in"].items() if not k.endswith("_f") and k not in ("cli", "cli_opts")}
+    inp = {k: v for k, v in case["in"].items() if not k.endswith("_f") and k not in (
+        "cli", "cli_opts", "cols", "seg_repr", "call", "parx", "ignore_tuple")}
     line = {"op": case["op"], "in": inp}
     if isinstance(impl, dict) and impl.get("reread"):
         # a command-line case: the model gets the tables the command read from the files
@@ -642,6 +904,8 @@ def judge(case, impl, resp):
     elif op == "squash_genes":
         if case["in"]["summary"] == "default":
             dis = _cmp_rows("squash", out, impl, (0, 1, 2, 3), ())
+        elif "weight" in ((case["in"].get("cols") or {}).get("drop") or []):
+            dis = _cmp_rows("squash", out, impl, (0, 1, 2, 3), (4, 5))  # a table without weights
         else:
             dis = _cmp_rows("squash", out, impl, (0, 1, 2, 3), (4, 5, 6))
     elif op == "breaks":
@@ -673,4 +937,8 @@ def shrink(case):
         for k in range(len(segs)):
             c = {"op": case["op"], "tag": "shrunk", "in": dict(case["in"])}
             c["in"]["segs"] = segs[:k] + segs[k + 1:]
+            sr = case["in"].get("seg_repr")
+            if sr:
+                c["in"]["seg_repr"] = {"cols": sr["cols"], "vals": sr["vals"][:k] + sr["vals"][k + 1:] if sr["cols"] else [],
+                                       "index": (sr["index"][:k] + sr["index"][k + 1:]) if sr["index"] else None}
             yield c
